@@ -44,19 +44,19 @@ TAdmit ==
            /\ Ev.code \in {"Success", "Unschedulable"}
            /\ Ev.code = "Success" <=> (OwnOK /\ NPOK /\ ParOK)            \* no over-admission, no unjustified rejection
            /\ Becomes([Cur EXCEPT !.pod[p].assigned = (Ev.code = "Success")])   \* Success is followed by Reserve
-    /\ UNCHANGED avars
+    /\ UNCHANGED avars /\ UNCHANGED scaleOn
 
 \* quota upserts remember lowered max
 TQuotaA ==
     /\ IsEvent("quota") /\ OpOK(Cur, Ev) /\ Becomes(OpF(Cur, Ev))
     /\ lowered' = IF Ev.name \in DOMAIN quota /\ \E d \in Dims : Ev.max[d] < quota[Ev.name].max[d]
                   THEN lowered \cup {Ev.name} ELSE lowered
-    /\ UNCHANGED cfg
+    /\ UNCHANGED cfg /\ UNCHANGED scaleOn
 TOtherA ==
     /\ ~done /\ l <= TLen /\ Trace[l].op \in (SingleOps \ {"quota"})
     /\ l' = l + 1 /\ UNCHANGED <<seg, done>>
-    /\ OpOK(Cur, Ev) /\ Becomes(OpF(Cur, Ev)) /\ UNCHANGED avars
-TNodeA == IsEvent("node") /\ NodeDelta(Vec(Ev.delta)) /\ UNCHANGED avars
+    /\ OpOK(Cur, Ev) /\ Becomes(OpF(Cur, Ev)) /\ UNCHANGED avars /\ UNCHANGED scaleOn
+TNodeA == IsEvent("node") /\ NodeDelta(Vec(Ev.delta)) /\ UNCHANGED avars /\ UNCHANGED scaleOn
 
 \* a group whose max is not lowered never shows used above max (groups checked at every admission they account for)
 NeverAboveMax ==
@@ -65,7 +65,7 @@ NeverAboveMax ==
 
 AdmInit == \E i \in Starts : /\ TraceStart(i) /\ Init
                              /\ cfg = [runtime |-> Trace[i].runtime, checkParent |-> Trace[i].checkParent]
-                             /\ lowered = {}
-AdmNext == TAdmit \/ TQuotaA \/ TOtherA \/ TNodeA \/ (SegDone /\ UNCHANGED vars /\ UNCHANGED avars)
-AdmSpec == AdmInit /\ [][AdmNext]_<<vars, tvars, avars>>
+                             /\ lowered = {} /\ scaleOn = Get(Trace[i], "scale", FALSE)
+AdmNext == TAdmit \/ TQuotaA \/ TOtherA \/ TNodeA \/ (SegDone /\ UNCHANGED vars /\ UNCHANGED avars /\ UNCHANGED scaleOn)
+AdmSpec == AdmInit /\ [][AdmNext]_<<vars, tvars, avars, scaleOn>>
 =============================================================================
